@@ -231,7 +231,14 @@ func (arch *Arch) Assembler_process_line(line []byte) (string, error) {
 			for i, op := range arch.Op {
 				if op.Op_get_name() == words[0] {
 					if result, err := op.Assembler(arch, words[1:]); err == nil {
-						return zeros_prefix(opbits, get_binary(i)) + result, nil
+						word := zeros_prefix(opbits, get_binary(i)) + result
+						// Every field is padded to its width and the word to Max_word, a longer word
+						// means that an operand does not fit its field: refuse it instead of emitting
+						// a word that the ROM would cut
+						if len(word) > arch.Max_word() {
+							return "", Prerror{"operand out of range, the instruction needs " + strconv.Itoa(len(word)) + " bits in a word of " + strconv.Itoa(arch.Max_word()) + ", error processing " + op.Op_get_name()}
+						}
+						return word, nil
 					} else {
 						return "", Prerror{err.Error() + ", error processing " + op.Op_get_name()}
 					}
